@@ -68,4 +68,25 @@ def _root_.Gimli.WCfi.WInstr.InRange : WInstr → Prop
   | .argsSize n => n < 2 ^ 32
   | _ => True
 
+/-! ## observations on the entries a table write produced -/
+
+/-- the CIE indices of the CIE entries, in emission order -/
+def cieIdxs : List Entry → List Nat
+  | [] => []
+  | .cie i _ _ :: es => i :: cieIdxs es
+  | .fde _ _ _ :: es => cieIdxs es
+
+/-- every CIE entry is immediately followed by an FDE entry that uses it, placed right after it -/
+def CieThenFde : List Entry → Prop
+  | [] => True
+  | .fde _ _ _ :: es => CieThenFde es
+  | .cie i off b :: .fde j off' _ :: es => j = i ∧ off' = off + b.length ∧ CieThenFde es
+  | .cie _ _ _ :: _ => False
+
+/-- entries are laid out back to back from `pos` -/
+def Contiguous : Nat → List Entry → Prop
+  | _, [] => True
+  | pos, .cie _ off b :: es => off = pos ∧ Contiguous (pos + b.length) es
+  | pos, .fde _ off b :: es => off = pos ∧ Contiguous (pos + b.length) es
+
 end Gimli.Spec.WCfi
